@@ -119,6 +119,7 @@ class Program:
         self.traits = self.d["traits"]
         self.impls = self.d["impls"]
         self.instances = self.d["instances"]
+        self.enums = {k: {int(d): n for d, n in v} for k, v in self.d.get("enums", {}).items()}
 
     # ---- lookup helpers -------------------------------------------------
     def fn(self, key):
